@@ -41,6 +41,7 @@ def edge_values(open_line):
 
 def run(ctx, proofs_ok):
     import shutil
+    from checks import cleanwrite
     pdir = f"{ctx.work}/pebble-shapes"
     shutil.rmtree(pdir, ignore_errors=True)
     ev = {"reopen": 0.06, "gc": 0.06, "flush": 0.03}
@@ -53,6 +54,11 @@ def run(ctx, proofs_ok):
     ], extra=[("key names of length 0..12 and element sizes around every prefix boundary, 3 reopen cycles (memory)", shapes("open a mem"), False),
               ("the same on Pebble", shapes(f"open a pebble {pdir}"), False),
               ("empty and one-byte values of every type through eviction, reload and reopen (memory)", edge_values("open a mem"), False),
-              ("empty and one-byte values of every type through eviction, reload and reopen (Pebble)", edge_values(f"open a pebble {pdir}-edge"), False)])
+              ("empty and one-byte values of every type through eviction, reload and reopen (Pebble)", edge_values(f"open a pebble {pdir}-edge"), False),
+              ("writers: every writing method once on clean, just reloaded keys (own keys each; two-key commands with clean source and destination), then Close + Open (memory)", cleanwrite.table("open a mem"), False),
+              ("writers-pebble: the same on Pebble", cleanwrite.table(f"open a pebble {pdir}-cw"), False),
+              ("writers-deadline: the same with deadlines on every key (Pebble)", cleanwrite.table(f"open a pebble {pdir}-cwd", with_deadline=True), False)])
+    shutil.rmtree(pdir + "-cw", ignore_errors=True)
+    shutil.rmtree(pdir + "-cwd", ignore_errors=True)
     shutil.rmtree(pdir + "-edge", ignore_errors=True)
     shutil.rmtree(pdir, ignore_errors=True)
